@@ -54,6 +54,8 @@ def _declared():
         (cirq.Z(b).with_classical_controls(sympy.Symbol("k") + sympy.Symbol("m") > 0), (), ("k", "m")),
         (cirq.Y(b).with_classical_controls("m").with_tags("t"), (), ("m",)),
         (gated_body, (), ("m",)),
+        (gated_body.with_tags("t"), (), ("m",)),                                         # a tag around a sub-circuit that reads an outer key
+        (cirq.CircuitOperation(cirq.FrozenCircuit(cirq.Z(a).with_classical_controls("k").with_tags("inner"))).with_tags("t", "u"), (), ("k",)),
         (gated_body.with_classical_controls("k"), (), ("k", "m")),                      # a control around an operation that has control keys of its own
         (measuring_body, ("k",), ()),
         (cirq.measure_single_paulistring(cirq.X(a) * cirq.Z(b), key="m"), ("m",), ()),
@@ -624,6 +626,25 @@ def standin_structural_ops(tier, seed):
             bad("concat_ragged lost or duplicated operations", a=c, b=d)
         elif not np.allclose(U(cr, order), U(d, order) @ u, atol=1e-7):
             bad("concat_ragged changed the action of c followed by d", a=c, b=d)
+        # ragged concatenation of circuits over the declared-key alphabet: operations of the two circuits that conflict (qubit or key) keep their order
+        alpha = _alphabet()
+        ca = cirq.Circuit(rng.sample(alpha, rng.randrange(1, 4)), strategy=rng.choice([cirq.InsertStrategy.EARLIEST, cirq.InsertStrategy.NEW]))
+        da = cirq.Circuit(rng.sample(alpha, rng.randrange(1, 4)), strategy=rng.choice([cirq.InsertStrategy.EARLIEST, cirq.InsertStrategy.NEW]))
+        for align in (cirq.Alignment.LEFT, cirq.Alignment.RIGHT, cirq.Alignment.FIRST):
+            cases += 1
+            try:
+                cra = cirq.Circuit.concat_ragged(ca, da, align=align)
+            except Exception as ex:
+                bad(f"concat_ragged raised {type(ex).__name__}", a=ca, b=da, align=align)
+                continue
+            pos = {}
+            for i_, m_ in enumerate(cra.moments):
+                for o_ in m_.operations:
+                    pos.setdefault(o_, []).append(i_)
+            for o1 in ca.all_operations():
+                for o2 in da.all_operations():
+                    if o1 != o2 and len(pos.get(o1, ())) == 1 and len(pos.get(o2, ())) == 1 and _conflict(o1, o2) and not pos[o1][0] < pos[o2][0]:
+                        bad("concat_ragged: an operation of the second circuit does not come after a conflicting operation of the first", a=ca, b=da, align=align, first=o1, second=o2)
         if len(fails) >= 6:
             break
     return dict(function=F + ":Circuit[inverse, zip, transform_qubits, +, *, slices, freeze, concat_ragged]", case="structural-ops",
